@@ -817,6 +817,7 @@ def runCase (xs : List Sexp) : Option String :=
   match xs with
   | [.atom "val", t, v] => do pure (runVal (← toTy t) (← toVal v))
   | [.atom "type", t] => do pure (runType (← toTy t))
+  | [.atom "be", t, v] => do pure (runVal (← toTy t) (← toVal v))
   | [.atom "inh", .list (.atom "types" :: ts), .list (.atom "vals" :: vs), c] => do
     pure (runInh (← ts.mapM toTy) (← vs.mapM toVal) (← toCls c))
   | .atom "hist" :: t :: v :: ops => do pure (runHist (← toTy t) (← toVal v) (← ops.mapM toHOp))
